@@ -70,8 +70,14 @@ class TlsConn:
         self.rec_ver = R.TLS12 if ver == R.TLS13 else ver
         self.nrec = 0
         self.apsecret, self.kugen = {}, {"c": 0, "s": 0}
+        def edged(b):       # shape secret_edges: secrets are arbitrary bytes -- also ones that begin / end with bytes a text routine would strip
+            k = shape.get("secret_edges")
+            if not k:
+                return b
+            e = [0x20, 0x0A, 0x0D, 0x09, 0x00, 0x0C, 0x0B][(k + len(b) + b[1]) % 7]
+            return bytes([e]) + b[1:-1] + bytes([[0x0A, 0x20, 0x00, 0x0D, 0x09][(k + b[2]) % 5]])
         if ver == R.TLS13:
-            self.secrets = {lab: g(R.HLEN[suite.prf]) for lab in R.LABELS13}
+            self.secrets = {lab: edged(g(R.HLEN[suite.prf])) for lab in R.LABELS13}
             self.keylog = R.keylog_lines(ver, self.cr, secrets13={
                 k: v for k, v in self.secrets.items()
                 if "HANDSHAKE" not in k or hs_side(shape.get("hs_in_log", True), "c" if k.startswith("CLIENT") else "s")})
@@ -80,7 +86,7 @@ class TlsConn:
             self.ap = {"c": mk("CLIENT_TRAFFIC_SECRET_0"), "s": mk("SERVER_TRAFFIC_SECRET_0")}
             self.cur = dict(self.hs)
         else:
-            self.ms = g(48)
+            self.ms = edged(g(48))
             if shape.get("ms_hex"):              # a resumed session: same master secret as an earlier connection, fresh randoms
                 self.ms = bytes.fromhex(shape["ms_hex"])
             self.keylog = R.keylog_lines(ver, self.cr, ms=self.ms)
@@ -222,6 +228,14 @@ class TlsConn:
         tag = f"{d}{len(self.app_sent[d])}#{self.nrec}".encode()
         self.nrec += 1
         data = filler(tag, n)
+        pat = self.shape.get("plain_pattern")        # application data is arbitrary bytes, not text
+        if pat == "nul_edges" and n:
+            k = min(n, 1 + self.nrec % 5)
+            data = (b"\x00" * k + data[k:n - k] + b"\x00" * k)[:n] if n > 2 * k else b"\x00" * n
+        elif pat == "all_nul":
+            data = b"\x00" * n
+        elif pat == "binary" and n:
+            data = bytes((i * 151 + self.nrec * 7) & 0xFF for i in range(n))
         self.app_sent[d].append(data)
         return self._enc(d, 23, data, "APP", plain=data,
                          pad13=self.shape.get("pad13", 0) if pad13 is None else pad13)
